@@ -53,6 +53,7 @@ func loadOfCell(v ssa.Value) ssa.Value {
 
 func runC18(c *Ctx) {
 	ruleFreshDecode(c, "R18f")
+	ruleLoopCarriedArgs(c, "R18g", 4)
 	const rule = "R18a"
 	fn := c.MustFn(rule, pkgV2, "ProcessBulk")
 	if fn == nil {
